@@ -896,6 +896,7 @@ class SyncObj(object):
             newEntries = message.get('entries', [])
             serialized = message.get('serialized', None)
             self.__leaderCommitIndex = leaderCommitIndex = message['commit_index']
+            verifiedLogIdx = None  # last index of our log known to match the leader's log
 
             # Regular append entries
             if 'prevLogIdx' in message:
@@ -957,15 +958,17 @@ class SyncObj(object):
                     nextNodeIdx = newEntries[-1][1] + 1
 
                 self.__sendNextNodeIdx(node, nextNodeIdx=nextNodeIdx, success=True)
+                verifiedLogIdx = nextNodeIdx - 1
 
             # Install snapshot
             elif serialized is not None:
                 if self.__serializer.setTransmissionData(serialized):
-                    self.__loadDumpFile(clearJournal=True)
-                    self.__sendNextNodeIdx(node, success=True)
+                    if self.__loadDumpFile(clearJournal=True):
+                        self.__sendNextNodeIdx(node, success=True)
+                        verifiedLogIdx = self.__getCurrentLogIndex()
 
-            if leaderCommitIndex > self.__raftCommitIndex:
-                self.__raftCommitIndex = min(leaderCommitIndex, self.__getCurrentLogIndex())
+            if verifiedLogIdx is not None and leaderCommitIndex > self.__raftCommitIndex:
+                self.__raftCommitIndex = max(self.__raftCommitIndex, min(leaderCommitIndex, verifiedLogIdx))
 
             self.__raftLog.setRaftCommitIndex(self.__raftCommitIndex)
 
@@ -1422,8 +1425,10 @@ class SyncObj(object):
             if self.__conf.dynamicMembershipChange:
                 self.__updateClusterConfiguration([node for node in data[3] if node != self.__selfNode])
             self.__onSetCodeVersion(self.__enabledCodeVersion)
+            return True
         except:
             logger.exception('failed to load full dump')
+            return False
 
     def __updateClusterConfiguration(self, newNodes):
         # newNodes: list of Node or node ID
